@@ -118,6 +118,8 @@ func prgSampling(args []string) int {
 	v, ev = prgx.RejectionRuns(*seed)
 	res = append(res, samplingOut{"rejection-runs", ev, v})
 	res = append(res, samplingOut{"arguments", 20, prgx.SamplingArgs(*seed)})
+	v, ev = prgx.UintNSequences(*seed, 10*(*per))
+	res = append(res, samplingOut{"uintn-sequences", ev, v})
 	// validity of every sampler on a grid of (n, m), many seeded generators
 	v, ev = prgx.ValidityGrid(*seed, *per)
 	res = append(res, samplingOut{"validity-grid", ev, v})
